@@ -49,6 +49,7 @@ def WItem.beqL : List WItem → List WItem → Bool
   | [], [] => true
   | .item a :: as, .item b :: bs => Item.beq a b && WItem.beqL as bs
   | .value s v :: as, .value s' v' :: bs => s == s' && Value.beq v v' && WItem.beqL as bs
+  | .named s k v :: as, .named s' k' v' :: bs => s == s' && k == k' && Value.beq v v' && WItem.beqL as bs
   | _, _ => false
 
 theorem WItem.eqL_of_beqL : (a b : List WItem) → WItem.beqL a b = true → a = b
@@ -61,8 +62,15 @@ theorem WItem.eqL_of_beqL : (a b : List WItem) → WItem.beqL a b = true → a =
     rw [h.1.1, Value.eq_of_beq v v' h.1.2, WItem.eqL_of_beqL as bs h.2]
   | [], _ :: _, h => by simp [WItem.beqL] at h
   | _ :: _, [], h => by simp [WItem.beqL] at h
+  | .named s k v :: as, .named s' k' v' :: bs, h => by
+    simp only [WItem.beqL, Bool.and_eq_true, beq_iff_eq] at h
+    rw [h.1.1.1, h.1.1.2, Value.eq_of_beq v v' h.1.2, WItem.eqL_of_beqL as bs h.2]
   | .item _ :: _, .value _ _ :: _, h => by simp [WItem.beqL] at h
   | .value _ _ :: _, .item _ :: _, h => by simp [WItem.beqL] at h
+  | .item _ :: _, .named _ _ _ :: _, h => by simp [WItem.beqL] at h
+  | .named _ _ _ :: _, .item _ :: _, h => by simp [WItem.beqL] at h
+  | .value _ _ :: _, .named _ _ _ :: _, h => by simp [WItem.beqL] at h
+  | .named _ _ _ :: _, .value _ _ :: _, h => by simp [WItem.beqL] at h
 
 def outcomeBeqW : Except Err (List WItem) → Except Err (List WItem) → Bool
   | .ok a, .ok b => WItem.beqL a b
